@@ -16,7 +16,9 @@ def tinyfy(rng, t, p=0.3):
 PROP = "C14"
 PAR_OK = True
 LEVEL = "proof"
-RULE = ("60% of the cases use the tree before the call (ReinitIndexes and/or a first ToDistanceMatrix, then 1..3 public edits that "
+RULE = ("homonymous tips (3..12 tips, one or two names given twice or three times; matrix x 3 metrics, averages on the same "
+        "multiset of names); roots with a single neighbour in the cut stream with the branch under the root below / at / above the "
+        "threshold (oracle: the groups partition Tree.Tips()); `gotree matrix` on files (see extra); 60% of the cases use the tree before the call (ReinitIndexes and/or a first ToDistanceMatrix, then 1..3 public edits that "
         "invalidate the index: two tip names exchanged, a tip renamed so that the name order changes, Reroot, RotateInternalNodes; "
         "nothing re-indexed; the model and the oracle run on the tree as dumped just before the call); "
         "30% of the trees carry negative branch lengths (-1/4, -1/64, -3, -5/2, -2^-30, -3*2^-35, -63/64, -65/64, -100; never -1) on tip and "
@@ -78,6 +80,21 @@ def rand_tree0(g, rng, tier, lo=2, prefix="t", ntips=None):
                   lenmode=rng.choice(["all", "all", "mixed", "mixed", "none"]),
                   supmode=rng.choice(["mixed", "mixed", "all", "none"]),
                   inner_names=rng.random() < 0.2, up_random=rng.random() < 0.5)
+
+def homonyms(rng, t, ren=None):
+    """give some tips the name of another tip (the parser and the commands accept homonymous tips); at most 12 tips"""
+    import copy as _c
+    t = _c.deepcopy(t)
+    tips = [x for x in preorder(t) if not kids(x)]
+    if ren is None:
+        names = [x["name"] for x in tips]
+        ren = {}
+        for _ in range(rng.choice([1, 1, 2])):
+            a, b = rng.sample(names, 2)
+            ren[a] = ren.get(b, b)
+    for x in tips:
+        x["name"] = ren.get(x["name"], x["name"])
+    return t, ren
 
 def lengths_of(t):
     return [e["len"] for x in preorder(t) for e, _ in kids(x) if e["len"] is not None]
@@ -146,6 +163,39 @@ def gen(rng, tier):
             d = {"op": Sym("cut"), "maxlen": th, "tree": T(t)}
             d.update(p)
             out.append({"sx": sx(d), "meta": meta("cut", t, threshold=kind, used=bool(p))})
+    # ---- homonymous tips (at most 12 tips: the sort of the code is then a stable insertion sort)
+    for k in range({"quick": 60, "thorough": 600, "search": 100}[tier]):
+        t, _ren = homonyms(rng, rand_tree0(g, rng, tier, ntips=rng.randint(3, 12)))
+        for m in METRICS:
+            p = pre_steps(rng) if rng.random() < 0.3 else {}
+            d = {"op": Sym("matrix"), "metric": Sym(m), "tree": T(t)}
+            d.update(p)
+            out.append({"sx": sx(d), "meta": meta("matrix", t, metric=m, homonyms=True, used=bool(p))})
+        if k % 2 == 0:
+            nt = len(leaves(t))
+            ts = [rand_tree0(g, rng, tier, ntips=nt) for _ in range(rng.choice([2, 3]))]
+            ren = None
+            tsd = []
+            for x in ts:
+                y, ren = homonyms(rng, x, ren)
+                tsd.append(y)
+            m = rng.choice(METRICS)
+            out.append({"sx": sx({"op": Sym("avg"), "metric": Sym(m), "trees": [T(x) for x in tsd]}),
+                        "meta": {"op": "avg", "metric": m, "ntrees": len(tsd), "ntips": nt, "homonyms": True}})
+    # ---- roots with a single neighbour in the cut stream: the root is a (nameless) tip for the code; the branch under it is
+    #      below, at and above the threshold
+    for k in range({"quick": 30, "thorough": 300, "search": 60}[tier]):
+        base = rand_tree(g, rng, tier, lo=1 if False else 2, ntips=rng.choice([None, 2, 3]))
+        t = degree_one_root(g, rng, base)
+        if rng.random() < 0.3:
+            t = {"name": "", "coms": [], "slots": [({"len": g.dyadic(256, 64), "sup": None, "pv": None, "coms": []},
+                                                     {"name": "A", "coms": [], "slots": [None]})]}
+        e0 = t["slots"][0][0]
+        if e0["len"] is None:
+            e0["len"] = g.dyadic(256, 64)
+        l0 = e0["len"]
+        for th in {l0, l0 + Fraction(1, 64), l0 - Fraction(1, 64), Fraction(0), Fraction(1000), l0 / 2}:
+            out.append({"sx": sx({"op": Sym("cut"), "maxlen": th, "tree": T(t)}), "meta": meta("cut", t, threshold="root1", root1=True)})
     navg = {"quick": 120, "thorough": 2000, "search": 200}[tier]
     for k in range(navg):
         nt = rng.randint(2, 10 if tier != "thorough" else 25)
@@ -167,3 +217,108 @@ def gen(rng, tier):
         out.append({"sx": sx(d),
                     "meta": {"op": "avg", "metric": m, "ntrees": cnt, "ntips": nt, "mismatch": mism, "used": bool(p.get("pre"))}})
     return out
+
+# ---------------------------------------------------------------- the command line: gotree matrix
+def _parse_matrices(text):
+    """blocks:  n \\n  name \\t v ... (n lines)  -> [(names, rows of Fraction)]"""
+    lines = text.split("\n")
+    out, i = [], 0
+    while i < len(lines):
+        if not lines[i].strip():
+            i += 1
+            continue
+        n = int(lines[i].strip())
+        names, rows = [], []
+        for l in lines[i + 1:i + 1 + n]:
+            f = l.split("\t")
+            names.append(f[0])
+            rows.append([Fraction(x) for x in f[1:]])
+        if len(names) != n or any(len(r) != n for r in rows):
+            raise ValueError("truncated matrix block")
+        out.append((names, rows))
+        i += 1 + n
+    return out
+
+def extra(tier, seed, st):
+    """`gotree matrix -i FILE [-m metric] [--avg] [-o OUT]` on single- and multi-tree files, outputs below and above 4096 and 65536
+    bytes: the printed matrices are parsed and judged by the same judge (cells within the printing precision), and the file written
+    with -o must be byte for byte what is written on stdout."""
+    import cli, random, subprocess
+    info = {"cli_runs": 0, "cli_matrices_judged": 0, "evaluations": 0, "distinct_nontrivial": 0, "cli_output_bytes": []}
+    ok, err = cli.build_gotree()
+    if not ok:
+        return [("build", "gotree no longer builds: " + err[-500:], None)], info
+    rng = random.Random(seed + 1414)
+    g = Gen(rng)
+    d = cli.scratch("c14cli-")
+    plan = []   # (ntips, ntrees)
+    nf = {"quick": 16, "thorough": 120}.get(tier, 16)
+    for i in range(nf):
+        plan.append((rng.randint(3, 9), rng.choice([1, 1, 2, 3, 5])))
+    plan += [(20, 1), (20, 3), (12, 50)]          # one matrix above 4096 bytes; many matrices above 65536 bytes
+    fails, lines, back = [], [], {}
+    for i, (nt, k) in enumerate(plan):
+        trees = [g.tree(ntips=nt, maxdeg=4, lenmode=rng.choice(["all", "mixed"]), supmode="mixed") for _ in range(k)]
+        text = "".join(newick(t) + "\n" for t in trees)
+        f = os.path.join(d, "in%d.nw" % i)
+        open(f, "w").write(text)
+        for avg in ([False, True] if k <= 5 else [False, True]):
+            m = rng.choice(METRICS)
+            argv = ["matrix", "-i", f, "-m", m] + (["--avg"] if avg else [])
+            rc, so, se = cli.run(argv, d)
+            of = os.path.join(d, "out%d%s.txt" % (i, "a" if avg else ""))
+            rc2, so2, se2 = cli.run(argv + ["-o", of], d)
+            info["cli_runs"] += 2
+            body = {"argv": ["gotree"] + argv[:2] + ["FILE"] + argv[3:], "input": text[:3000], "ntrees": k, "ntips": nt}
+            if rc != 0 or rc2 != 0:
+                fails.append(("cli-matrix", "exit status %d / %d: %s" % (rc, rc2, (se + se2).decode("utf-8", "replace")[-300:]), body))
+                continue
+            try:
+                written = open(of, "rb").read()
+            except OSError:
+                written = None
+            info["cli_output_bytes"].append(len(so))
+            if written != so:
+                fails.append(("cli-matrix-file", "the file written with -o (%s bytes) is not what is printed on stdout (%d bytes)"
+                              % ("no file" if written is None else len(written), len(so)), dict(body, argv=body["argv"] + ["-o", "OUT"])))
+                continue
+            try:
+                blocks = _parse_matrices(so.decode("utf-8", "replace"))
+            except Exception as ex:
+                fails.append(("cli-matrix", "output not readable: %s" % ex, dict(body, stdout=so.decode("utf-8", "replace")[:1500])))
+                continue
+            want = 1 if avg else k
+            if len(blocks) != want:
+                fails.append(("cli-matrix", "%d matrices printed, %d expected" % (len(blocks), want), body))
+                continue
+            for bi, (names, rows) in enumerate(blocks):
+                if avg:
+                    case = {"op": Sym("avg"), "metric": Sym(m), "trees": [T(t) for t in trees], "cli": True}
+                    obs = {"err": "", "names": names, "matrix": rows}
+                else:
+                    case = {"op": Sym("matrix"), "metric": Sym(m), "tree": T(trees[bi]), "cli": True}
+                    obs = {"names": names, "matrix": rows}
+                cid = "%d.%d.%d" % (i, 1 if avg else 0, bi)
+                lines.append("C14\t%s\t%s\t%s\n" % (cid, sx(case), sx(obs)))
+                back[cid] = (body, bi)
+    if lines:
+        j = subprocess.run([os.path.join(BUILD, "judge-C14")], input="".join(lines).encode(), stdout=subprocess.PIPE, stderr=subprocess.PIPE, timeout=900)
+        seen = set()
+        for line in j.stdout.decode("utf-8", "surrogateescape").split("\n"):
+            parts = line.split("\t")
+            if len(parts) < 2:
+                continue
+            seen.add(parts[0])
+            info["cli_matrices_judged"] += 1
+            if parts[1] != "OK":
+                body, bi = back[parts[0]]
+                fails.append(("cli-matrix", "matrix %d of the output: %s" % (bi + 1, " ".join(parts[1:3])[:300]), body))
+        for cid in back:
+            if cid not in seen:
+                fails.append(("cli-judge", "no verdict for " + cid, None))
+    info["evaluations"] = info["cli_matrices_judged"]
+    info["cli_output_bytes"] = {"min": min(info["cli_output_bytes"] or [0]), "max": max(info["cli_output_bytes"] or [0]),
+                                "above_4096": sum(1 for x in info["cli_output_bytes"] if x > 4096),
+                                "above_65536": sum(1 for x in info["cli_output_bytes"] if x > 65536)}
+    fails.sort(key=lambda x: len(json.dumps(x[2])) if x[2] else 0)
+    return fails[:5], info
